@@ -14,6 +14,15 @@ Lean proves (PabuProofs/Properties/C12MIP.lean) that the modelled program encode
     Any difference is a model/implementation disagreement (`ctx.disagreements`);
   * cross-check: the point CBC returns (rationalised floats) is substituted into the MODEL's rows with the tolerance of
     harness/mipcheck.py (1e-6); a violated row is counted as a solver fault (the program itself was compared exactly);
+  * the same for `priceable(..., relaxation=R)` with the five relaxation classes (`mip_relax_part`): variables with type and BOUNDS
+    (`add_beta`), all rows (`add_stability_constraint` and the rows of `add_beta`), the objective's sense and coefficients
+    (`add_objective`) and the keyword arguments of `optimize()` against `pricemiprelax` = `PriceMIP.rprogram`
+    (PabuModel/PriceMIPRelax.lean; proved in C12MIPRelax.lean: relaxed_encoding_sound / relaxed_encoding_complete /
+    relaxed_optimum_spec).  On solved calls the returned point is substituted into the model's rows (solver faults counted) and
+    `get_beta` / `get_relaxed_cost` / allocation / voter budget as the library reads them off that point are compared with
+    `PriceMIP.getBeta` / `rcOf` evaluated by the driver at the same point (`pricemiprelaxsat`; deterministic code: a difference
+    is a disagreement).  Exact optimal relaxed systems of the LP oracle (the definition, independent code) are replayed through
+    the executable model: `rsat` and `exactRelaxed` must accept them with `getBeta` = the oracle's optimum;
   * the finding of the Lean development (completeness fails beyond 10 supporters / for a project costing more than 10 x budget)
     is replayed on the real `priceable()` and recorded in the evidence (`extra["bigM_limits"]`) — outside C12's quantifier
     (<= 4 voters, small costs), therefore not a violation of the property.
@@ -33,6 +42,8 @@ from ..core import Case, q2s
 
 TOL = F(1, 10**6)
 INF_UB = 1e300
+RELAX_KINDS = ("mul", "add", "vec", "vecpos", "off")
+RELAX_CLASS = {"mul": "MinMul", "add": "MinAdd", "vec": "MinAddVector", "vecpos": "MinAddVectorPositive", "off": "MinAddOffset"}
 
 
 # ----------------------------------------------------------------------------------------------
@@ -82,7 +93,9 @@ def show_row(row):
 
 def var_names(case: Case, n):
     """library variable name -> canonical name"""
-    out = {"voter_budget": "b"}
+    out = {"voter_budget": "b", "beta": "beta"}
+    for c in case.names:
+        out[f"beta_{c}"] = f"beta.{case.rank[c]}"
     for i in range(n):
         out[f"r_{i}"] = f"r.{i}"
         out[f"m_{i}"] = f"m.{i}"
@@ -264,6 +277,41 @@ def adjudicate(box, case: Case, W, stable, exhaustive, searched):
     return "solver_fault", f"the solver answers {dump.get('status')} for a program that is the proved one (the exact oracle disagrees with the solver, not with the library)"
 
 
+class _Collect:
+    """just enough of a Ctx for compare_relax / compare outside a run"""
+
+    def __init__(self):
+        self.disagreements = []
+
+    def count(self, *a, **k):
+        pass
+
+
+def adjudicate_relax(box, case: Case, W, kind, exhaustive, searched):
+    """as `adjudicate`, for priceable(..., stable=True, relaxation=R): the program is compared with PriceMIP.rprogram
+    (variables with bounds, rows, objective, optimize() arguments); when it is the proved one, a point that violates it, a
+    non-optimal beta under status OPTIMAL, or INFEASIBLE for a feasible program are the solver's doing
+    (C12MIPRelax.relaxed_optimum_spec / relaxed_infeasible_spec assume nothing else about the solver)."""
+    job = {"op": "capture", "case": case.to_json(), "W": None if searched else W, "relax": kind, "stable": True, "exhaustive": exhaustive,
+           "solve": True, "want_result": True}
+    job["_line"] = model_line_relax(case, job)
+    answer = core.run_driver([job["_line"]])[0]
+    dump = box.call({k: v for k, v in job.items() if not k.startswith("_")})
+    if dump is None:
+        return "solver_fault", "the solver crashed or hung when the call was repeated"
+    if "error" in dump:
+        return "library", "priceable raised " + dump["error"]
+    c = _Collect()
+    if compare_relax(c, case, job, dump, answer) is None:
+        return "library", "the program handed to the solver is not PriceMIP.rprogram: " + (c.disagreements[0]["what"] if c.disagreements else "?")
+    if dump.get("status") in ("OPTIMAL", "FEASIBLE") and dump.get("point") is not None:
+        raw, res = dump["point"], dump.get("result") or {}
+        want_alloc = sorted(c_ for c_ in case.names if raw.get("x_" + c_, 0.0) >= 0.99)
+        if res.get("alloc") != want_alloc or res.get("b") != raw.get("voter_budget"):
+            return "library", "the returned result is not the solver's point read off as documented"
+    return "solver_fault", f"the program is the proved one; the solver's answer ({dump.get('status')}) for it is what contradicts the oracle"
+
+
 def witness_line(case: Case, W, stable, exhaustive, b, pf):
     """the point that encodes the exact price system (b capped at the budget limit, as `encoding_complete` does) -> driver line"""
     byid = sorted(case.names, key=lambda c: case.rank[c])
@@ -374,6 +422,323 @@ def mip_part(ctx, n_elections, solve_every=5, gen_case=None, subsets=None, budge
         box.close()
 
 
+# ----------------------------------------------------------------------------------------------
+# the relaxed programs: priceable(..., relaxation=R)  ==  PriceMIP.rprogram  (PabuModel/PriceMIPRelax.lean, C12MIPRelax.lean)
+
+
+def parse_terms(lhs):
+    terms = []
+    for t in (lhs.split("+") if lhs else []):
+        k, v = t.split("*")
+        terms.append((v, F(k)))
+    return terms
+
+
+def canon_model_relax(answer):
+    """`ok <vars> <constraints> min:<objective>` of `pricemiprelax` -> (vars, rows, named rows, objective, {var: (type, lb)})"""
+    parts = answer.strip().split(" ")
+    if parts[0] != "ok" or len(parts) != 4 or not parts[3].startswith("min:"):
+        raise core.DriverError("pricemiprelax: unexpected answer " + answer[:200])
+    vs = Counter()
+    decl = {}
+    for tok in parts[1].split(","):
+        v, ty, lb = tok.split(":")
+        vs[(v, ty, q2s(F(lb)), "1" if ty == "B" else "inf")] += 1
+        decl[v] = (ty, F(lb))
+    rows = Counter()
+    named = []
+    for tok in parts[2].split("|"):
+        name, lhs, sense, rhs = tok.split(":")
+        row = canon_row(parse_terms(lhs), {"le": "<", "ge": ">", "eq": "="}[sense], F(rhs))
+        rows[row] += 1
+        named.append((name, row))
+    obj = canon_row(parse_terms(parts[3][4:]), "<", F(0))[1]
+    return vs, rows, named, obj, decl
+
+
+def model_line_relax(case: Case, job):
+    fb = None if job.get("fb") is None else F(job["fb"])
+    pf = None if job.get("pf") is None else [{c: F(v) for c, v in p.items()} for p in job["pf"]]
+    return model_line(case, job["W"], job["stable"], job["exhaustive"], fb, pf).replace("pricemip ", "pricemiprelax ", 1) + f" relax={job['relax']}"
+
+
+def relax_cfg(job):
+    return {"part": "miprelax", "W": job["W"], "relax": job["relax"], "stable": job["stable"], "exhaustive": job["exhaustive"],
+            "fb": job.get("fb"), "pf": job.get("pf")}
+
+
+def compare_relax(ctx, case: Case, job, dump, answer):
+    """program priceable(relaxation=R) hands to the solver vs PriceMIP.rprogram; returns (named rows, declarations) or None"""
+    cfg = relax_cfg(job)
+    line = job["_line"]
+    cls = RELAX_CLASS[job["relax"]]
+    ivs, irows = canon_impl(case, dump)
+    mvs, mrows, named, mobj, decl = canon_model_relax(answer)
+    names = var_names(case, len(case.ballots))
+    ok = True
+
+    def differ(impl, model, what):
+        ctx.disagreements.append({"line": line, "impl": impl, "model": model, "case": case.to_json(), "cfg": cfg, "what": what})
+
+    if dump.get("nopt") != 1:
+        ok = False
+        differ(f"{dump.get('nopt')} optimize calls", "1", f"priceable(relaxation={cls}) did not hand exactly one program to the solver")
+    if "max_solutions" in (dump.get("kw") or []):
+        ok = False
+        differ(str(dump.get("kw")), "optimize(max_seconds=…)", f"priceable(relaxation={cls}) stops the solver at the first solution: the returned "
+               "beta need not be optimal (C12MIPRelax.relaxed_optimum_spec assumes an objective-optimal answer)")
+    iobj = canon_row([(names.get(v, "?" + v), rat(k)) for v, k in dump["obj"]], "<", F(0))[1]
+    if iobj != mobj or dump.get("obj_sense") != "MIN" or dump.get("obj_const") != 0.0:
+        ok = False
+        differ(f"{dump.get('obj_sense')} {list(map(str, iobj))} + {dump.get('obj_const')}", f"MIN {list(map(str, mobj))} + 0",
+               f"objective of the program priceable(relaxation={cls}) builds != PriceMIP.robjective (add_objective)")
+    if ivs != mvs:
+        ok = False
+        differ(sorted(map(str, (ivs - mvs).elements()))[:8], sorted(map(str, (mvs - ivs).elements()))[:8],
+               f"variables (name, type, bounds) of the program priceable(relaxation={cls}) builds != PriceMIP.rvars (add_beta)")
+    if irows != mrows:
+        ok = False
+        only_impl = [show_row(r) for r in sorted((irows - mrows).elements(), key=str)]
+        only_model = [show_row(r) for r in sorted((mrows - irows).elements(), key=str)]
+        fam = sorted({n for n, r in named if (mrows - irows)[r] > 0})
+        differ(only_impl[:8], only_model[:8],
+               f"constraints of the program priceable(relaxation={cls}) builds != PriceMIP.rconstraints ({len(only_impl)} rows only in the library, "
+               f"{len(only_model)} only in the model; model families {fam})")
+    ctx.count("miprelax_compare", job["relax"] + ("/equal" if ok else "/different"))
+    ctx.count("miprelax_rows", "total", sum(mrows.values()))
+    return (named, decl) if ok else None
+
+
+def point_line_relax(case: Case, job, point):
+    """a point (canonical variable name -> Fraction) as a `pricemiprelaxsat` line"""
+    n = len(case.ballots)
+    ids = sorted(case.rank[c] for c in case.names)
+    g = lambda v: q2s(point.get(v, F(0)))  # noqa: E731
+    return (job["_line"].replace("pricemiprelax ", "pricemiprelaxsat ", 1)
+            + f" b={g('b')} p={'|'.join(','.join(g(f'p.{i}.{c}') for c in ids) for i in range(n))} x={','.join(g(f'x.{c}') for c in ids)}"
+            + f" r={','.join(g(f'r.{i}') for i in range(n))} m={','.join(g(f'm.{i}') for i in range(n))}"
+            + f" beta={g('beta')} betav={','.join(g(f'beta.{c}') for c in ids)}")
+
+
+def check_point_relax(ctx, case: Case, job, dump, named, decl, sat_lines):
+    """the point the solver returned: (a) satisfies the model's rows and declared domains (tolerance 1e-6; otherwise a solver fault,
+    counted), (b) read through get_beta / get_relaxed_cost gives the numbers the model computes from the same point
+    (PriceMIP.getBeta / rcOf — deterministic library code, so a difference is a disagreement; checked in `flush_points_relax`)"""
+    if dump.get("status") not in ("OPTIMAL", "FEASIBLE") or dump.get("point") is None:
+        ctx.count("miprelax_point", "no point (" + str(dump.get("status")) + ")")
+        return
+    names = var_names(case, len(case.ballots))
+    point = {names.get(v, "?" + v): F(x) for v, x in dump["point"].items()}
+    worst, worst_name = F(0), None
+    for name, row in named:
+        d = row_violation(row, point)
+        if d > worst:
+            worst, worst_name = d, name
+    for v, x in point.items():
+        ty, lb = decl.get(v, ("C", F(0)))
+        d = max(lb - x, F(0))
+        if ty == "B":
+            d = max(d, min(abs(x), abs(x - 1)))
+        if d > worst:
+            worst, worst_name = d, "domain of " + v
+    if worst > TOL:
+        ctx.solver_faults += 1
+        ctx.count("solver_fault", "miprelax_point_violates_model")
+        ctx.count("miprelax_point", "violates " + str(worst_name))
+        l = ctx.extra.setdefault("mip_point_fault_samples", [])
+        if len(l) < 3:
+            l.append({"case": case.to_json(), "cfg": relax_cfg(job), "row": worst_name, "by": float(worst)})
+        return
+    ctx.count("miprelax_point", "satisfies the model's rows")
+    if dump.get("ret") is not None:
+        sat_lines.append((point_line_relax(case, job, point), case, job, dump["ret"], point))
+
+
+def close(a, b, tol=F(1, 10**9)):
+    return abs(a - b) <= tol * max(1, abs(a), abs(b))
+
+
+def flush_points_relax(ctx, sat_lines):
+    if not sat_lines:
+        return
+    outs = core.run_driver([l[0] for l in sat_lines])
+    for (line, case, job, ret, point), out in zip(sat_lines, outs):
+        parts = out.strip().split(" ")
+        if parts[0] != "ok" or len(parts) != 6:
+            raise core.DriverError("pricemiprelaxsat: unexpected answer " + out[:200])
+        ctx.evaluations += 1
+        kind = job["relax"]
+        cls = RELAX_CLASS[kind]
+        m_beta, m_obj = F(parts[3]), F(parts[4])
+        m_rc = {int(t.split(":")[0]): F(t.split(":")[1]) for t in parts[5].split(",")}
+        cfg = relax_cfg(job)
+
+        def differ(impl, model, what):
+            ctx.disagreements.append({"line": line, "impl": impl, "model": model, "case": case.to_json(), "cfg": cfg, "what": what})
+
+        # get_beta: the number reported as the optimum
+        if kind in ("mul", "add"):
+            l_beta = None if "beta" not in ret else F(ret["beta"])
+        elif kind == "off":
+            l_beta = None if ret.get("beta_global") is None else F(ret["beta_global"])
+        else:
+            l_beta = F(ret["sum"])
+        if l_beta is None or not close(l_beta, m_beta):
+            differ(str(ret), q2s(m_beta), f"{cls}.get_beta != PriceMIP.getBeta at the point the solver returned")
+        if m_obj != m_beta:
+            differ(q2s(m_obj), q2s(m_beta), "model: objective value != getBeta (contradicts C12MIPRelax.objective_eq_getBeta)")
+        if kind in ("vec", "vecpos", "off"):
+            for c in case.names:
+                if not close(F(ret["betav"][c]), point.get(f"beta.{case.rank[c]}", F(0))):
+                    differ(str(ret["betav"]), q2s(point.get(f"beta.{case.rank[c]}", F(0))), f"{cls}.get_beta: beta[{c}] != beta_{c}.x")
+            if not close(F(ret["sum"]), sum((point.get(f"beta.{case.rank[c]}", F(0)) for c in case.names), F(0))):
+                differ(str(ret["sum"]), "sum of beta_c.x", f"{cls}.get_beta: 'sum' != sum of beta_c.x")
+            want = ["beta", "sum"] + (["beta_global"] if kind == "off" else [])
+            if ret.get("keys") != sorted(want):
+                differ(str(ret.get("keys")), str(sorted(want)), f"{cls}.get_beta: keys of the returned dict")
+        # get_relaxed_cost for the saved beta
+        for c in case.names:
+            if not close(F(ret["rc"][c]), m_rc[case.rank[c]]):
+                differ({k: v for k, v in ret["rc"].items()}, {c2: q2s(m_rc[case.rank[c2]]) for c2 in case.names},
+                       f"{cls}.get_relaxed_cost != PriceMIP.rcOf at the point the solver returned")
+                break
+        # allocation and voter budget are read off the same point
+        x_alloc = sorted(c for c in case.names if point.get(f"x.{case.rank[c]}", F(0)) >= F(99, 100))
+        if ret["alloc"] != x_alloc or F(ret["b"]) != point.get("b", F(0)):
+            differ([ret["alloc"], ret["b"]], [x_alloc, float(point.get("b", F(0)))], "PriceableResult.allocation / voter_budget != x >= 0.99 / b.x of the point")
+        ctx.count("miprelax_get_beta", kind)
+
+
+def witness_relax(ctx, case: Case, job, lines):
+    """Lean proves (`relaxed_encoding_complete`): an exact relaxed price system within the class's declared domain is a point of
+    the program.  Replayed through the executable model on the optimum of the exact LP oracle (independent code, the
+    DEFINITION of the relaxation, not the program): `rsat` and `exactRelaxed` must accept it and `getBeta` must be its value."""
+    from .. import lp_oracle
+
+    W, kind = job["W"], job["relax"]
+    if W is None or not job["stable"] or job.get("fb") is not None or job.get("pf") is not None:
+        return
+    if kind in ("add", "off") and len(W) == len(case.names):
+        ctx.count("miprelax_witness", "degenerate (every project selected): skipped")  # relaxed_encoding_complete_FullStatement_false
+        return
+    st, val, wit = lp_oracle.relaxed_optimum(case.names, case.cost, case.budget, case.ballots, W, kind, job["exhaustive"], faithful=False)
+    ctx.count("miprelax_witness", "exact relaxed optimum exists" if st == "optimal" else str(st))
+    if st != "optimal":
+        return
+    b = min(wit["b"], case.budget)
+    pf = wit["pf"]
+    left = [b - sum((p[c] for c in case.names), F(0)) for p in pf]
+    mx = [max([p[c] for c in case.names] + [left[i]]) for i, p in enumerate(pf)]
+    point = {"b": b, "beta": wit["beta"] if wit["beta"] is not None else F(0)}
+    Wset = set(W)
+    for c in case.names:
+        k = case.rank[c]
+        point[f"x.{k}"] = F(1 if c in Wset else 0)
+        point[f"beta.{k}"] = wit["betav"].get(c, F(0))
+        for i, p in enumerate(pf):
+            point[f"p.{i}.{k}"] = p[c]
+    for i in range(len(pf)):
+        point[f"m.{i}"] = mx[i]
+    lines.append((point_line_relax(case, job, point), case, job, val))
+
+
+def flush_witness_relax(ctx, lines):
+    if not lines:
+        return
+    outs = core.run_driver([l[0] for l in lines])
+    for (line, case, job, val), out in zip(lines, outs):
+        ctx.evaluations += 1
+        parts = out.strip().split(" ")
+        if parts[:3] != ["ok", "1", "1"] or len(parts) != 6 or F(parts[3]) != val or F(parts[4]) != val:
+            ctx.disagreements.append({"line": line, "impl": f"exact relaxed optimum {q2s(val)} (LP oracle)", "model": " ".join(parts[:5]), "case": case.to_json(),
+                                      "cfg": relax_cfg(job),
+                                      "what": "the point that encodes an exact optimal relaxed price system is rejected by PriceMIP.rsat / "
+                                              f"Price.exactRelaxed or has another getBeta / objective (expected `ok 1 1 {q2s(val)} {q2s(val)}`)"})
+
+
+def relax_jobs(rng, case: Case, subsets, given_per_election=3):
+    """the calls of C12.relax_part (feasible allocations in the election's own shuffle + the searched mode), every class,
+    exhaustive on and off; plus the plain-with-relaxation call and hard-coded voter budget / payments on random ones"""
+    import random
+
+    from .. import lp_oracle
+
+    feas = [W for W in subsets(case.names) if lp_oracle.is_feasible_alloc(case.cost, case.budget, W)]
+    r = random.Random(case.seed)
+    r.shuffle(feas)
+    allocs = feas[:given_per_election] + [None]
+    infeas = [W for W in subsets(case.names) if not lp_oracle.is_feasible_alloc(case.cost, case.budget, W)]
+    if infeas:
+        allocs.append(rng.choice(infeas))  # the program is built all the same
+    jobs = []
+    for W in allocs:
+        for kind in RELAX_KINDS:
+            for exhaustive in (False, True):
+                jobs.append({"op": "capture", "case": case.to_json(), "W": W, "relax": kind, "stable": True, "exhaustive": exhaustive})
+    for kind in RELAX_KINDS:
+        W = rng.choice(allocs)
+        job = {"op": "capture", "case": case.to_json(), "W": W, "relax": kind, "stable": rng.random() < 0.5, "exhaustive": rng.random() < 0.5}
+        if rng.random() < 0.6:
+            fb, pf = gen_fixed(rng, case)
+            job["fb"] = None if fb is None else q2s(fb)
+            job["pf"] = None if pf is None else [{c: q2s(v) for c, v in p.items()} for p in pf]
+        jobs.append(job)
+    return jobs
+
+
+def mip_relax_part(ctx, n_elections, solve_every=5, witness_every=5, gen_case=None, subsets=None, budget_s=None):
+    rng = ctx.rng
+    box = MipBox()
+    t0 = ctx.elapsed()
+    sat_lines, wit_lines = [], []
+    try:
+        for e in range(n_elections):
+            if budget_s is not None and ctx.elapsed() - t0 > budget_s:
+                ctx.count("miprelax_part", "stopped by time budget")
+                break
+            case = gen_case(rng)
+            jobs = relax_jobs(rng, case, subsets)
+            for k, job in enumerate(jobs):
+                job["_line"] = model_line_relax(case, job)
+                job["solve"] = (e * 131 + k) % solve_every == 0
+            answers = core.run_driver([job["_line"] for job in jobs])
+            for k, (job, answer) in enumerate(zip(jobs, answers)):
+                if (e * 131 + k) % witness_every == 1:
+                    witness_relax(ctx, case, job, wit_lines)
+                send = {k2: v for k2, v in job.items() if not k2.startswith("_")}
+                dump = box.call(send)
+                if dump is None and send["solve"]:
+                    ctx.solver_faults += 1
+                    ctx.count("solver_fault", "miprelax_capture_crash_or_timeout")
+                    send["solve"] = False
+                    dump = box.call(send)
+                ctx.evaluations += 1
+                mode = job["relax"] + ("/searched" if job["W"] is None else "/given") + ("/stable" if job["stable"] else "/plain") \
+                    + ("/exh" if job["exhaustive"] else "") + ("/fixed" if (job.get("fb") is not None or job.get("pf") is not None) else "")
+                ctx.count("miprelax_mode", mode)
+                if dump is None:
+                    raise core.DriverError("C12_mip: the capture worker died without calling the solver")
+                if "error" in dump:
+                    ctx.violations.append({"what": f"priceable with {RELAX_CLASS[job['relax']]} raised " + dump["error"] + " while building its program",
+                                           "case": case.to_json(), "cfg": relax_cfg(job), "impl": dump["error"], "expected": "a program",
+                                           "sig": {"call": "priceable", "kind": "exception", "relaxation": RELAX_CLASS[job["relax"]]}})
+                    continue
+                res = compare_relax(ctx, case, job, dump, answer)
+                if len(case.ballots) >= 2 and len(case.names) >= 2:
+                    ctx.nontrivial.add((case.key(), "miprelax", job["relax"], None if job["W"] is None else tuple(job["W"]), job["stable"],
+                                        job["exhaustive"], job.get("fb"), str(job.get("pf"))))
+                if res is not None and send["solve"]:
+                    check_point_relax(ctx, case, job, dump, res[0], res[1], sat_lines)
+                if res is not None and e < 1 and job["W"] is not None and len(job["W"]) == 1 and job["stable"] and not job["exhaustive"]:
+                    ctx.sample(f"{job['_line']} -> impl {sum(1 for _ in dump['cons'])} rows, {len(dump['vars'])} variables, objective {dump['obj']} | "
+                               "model identical (as multisets)")
+        flush_points_relax(ctx, sat_lines)
+        flush_witness_relax(ctx, wit_lines)
+    finally:
+        ctx.extra.setdefault("solver_fault_kinds_mip", {}).update(box.fault_kinds)
+        box.close()
+
+
 def bigM_limits(ctx):
     """the two families the Lean development proves to be outside the reach of INF = 10 x budget (X13_infeasible,
     expensive_project_counterexample), replayed on the real priceable().  Outside C12's quantifier: recorded, not judged."""
@@ -390,6 +755,13 @@ def bigM_limits(ctx):
             D, _ = lp_oracle.price_system_exists(case.names, case.cost, case.budget, case.ballots, W, False, True)
             ans = box.call({"op": "priceable", "case": case.to_json(), "W": W, "stable": False, "exhaustive": True})
             out[tag] = {"price_system_exists (exact oracle)": D, "priceable() status": None if ans is None else ans.get("status", ans.get("error"))}
+        # C12MIPRelax.relaxed_encoding_complete_FullStatement_false / XDeg_beta_bound / XDeg_attains: MinAdd with every project selected
+        cdeg = Case([("p0", F(3)), ("p1", F(1))], F(4), "app", [["p0"], ["p1"]])
+        ans = box.call({"op": "relax", "case": cdeg.to_json(), "W": ["p0", "p1"], "kind": "add", "exhaustive": True})
+        Ds, Dv, _ = lp_oracle.relaxed_optimum(cdeg.names, cdeg.cost, cdeg.budget, cdeg.ballots, ["p0", "p1"], "add", True, faithful=False)
+        out["2 voters, costs 3 and 1, budget 4, allocation {p0,p1}, relaxation MinAdd (Lean: every point has beta >= -39, attained)"] = {
+            "least beta by the definition within the declared domain (exact oracle)": None if Dv is None else q2s(Dv),
+            "priceable(relaxation=MinAdd) beta": None if ans is None else ans.get("beta", ans.get("error", ans.get("status")))}
     finally:
         box.close()
     ctx.extra["bigM_limits"] = out
@@ -415,12 +787,20 @@ def _capture(job):
     pf = None if job.get("pf") is None else [{projs[c]: core.to_num(F(v)) for c, v in p.items()} for p in job["pf"]]
     cap = {"nopt": 0}
     orig = mip.Model.optimize
+    R = None
+    if job.get("relax"):
+        import pabutools.analysis.priceability_relaxation as rel
+
+        R = getattr(rel, RELAX_CLASS[job["relax"]])(inst, prof)
 
     def optimize(self, *a, **kw):
         cap["nopt"] += 1
+        cap["kw"] = sorted(kw)
         cap["vars"] = [[v.name, str(v.var_type), float(v.lb), float(v.ub)] for v in self.vars]
         cap["cons"] = [[[[v.name, float(k)] for v, k in c.expr.expr.items()], str(c.expr.sense), float(c.expr.const)] for c in self.constrs]
         cap["obj"] = [[v.name, float(k)] for v, k in self.objective.expr.items() if k != 0]
+        cap["obj_const"] = float(self.objective.const)
+        cap["obj_sense"] = str(self.sense)
         if not job.get("solve"):
             return mip.OptimizationStatus.INFEASIBLE
         st = orig(self, *a, **kw)
@@ -432,9 +812,22 @@ def _capture(job):
     mip.Model.optimize = optimize
     try:
         res = priceable(inst, prof, alloc, voter_budget=vb, payment_functions=pf, stable=bool(job.get("stable")),
-                        exhaustive=bool(job.get("exhaustive")), max_seconds=int(job.get("max_seconds", 30)))
+                        exhaustive=bool(job.get("exhaustive")), max_seconds=int(job.get("max_seconds", 30)),
+                        **({} if R is None else {"relaxation": R}))
     finally:
         mip.Model.optimize = orig
+    if R is not None and cap.get("point") is not None and res.validate():
+        # what get_beta / get_relaxed_cost make of the point the solver returned
+        beta = res.relaxation_beta
+        if isinstance(beta, dict):
+            cap["ret"] = {"betav": {n: float(beta["beta"].get(projs[n], 0)) for n in case.names},
+                          "beta_global": float(beta["beta_global"]) if "beta_global" in beta else None, "sum": float(beta["sum"]),
+                          "keys": sorted(str(k) for k in beta)}
+        else:
+            cap["ret"] = {"beta": float(beta)}
+        cap["ret"]["rc"] = {n: float(R.get_relaxed_cost(projs[n])) for n in case.names}
+        cap["ret"]["alloc"] = sorted(p.name for p in res.allocation)
+        cap["ret"]["b"] = float(res.voter_budget)
     if job.get("want_result"):
         ok = res.status in (mip.OptimizationStatus.OPTIMAL, mip.OptimizationStatus.FEASIBLE)
         cap["result"] = {"status": res.status.name, "alloc": sorted(p.name for p in res.allocation) if ok else None,
